@@ -3,9 +3,7 @@
 package node
 
 import (
-	"bufio"
-	"strings"
-
+	"github.com/paulsonkoly/calc/internal/vrt"
 	"github.com/paulsonkoly/calc/vm"
 )
 
@@ -34,8 +32,8 @@ func (l *VerifLines) Close() error { return nil }
 
 func VerifLoop(l *VerifLines, p Parser, m *vm.Type, doOut bool) { Loop(l, p, m, doOut) }
 
-// VerifFileLoop runs the script-file loop with the real file reader (FReader) over a file whose
-// content is text (the operating system file is replaced by an in-memory reader).
+// VerifFileLoop runs the script-file loop exactly as cmd/calc does for `calc file`: the real file
+// reader, made by its constructor, over a file holding text.
 func VerifFileLoop(text string, p Parser, m *vm.Type, doOut bool) {
-	Loop(FReader{b: bufio.NewReader(strings.NewReader(text))}, p, m, doOut)
+	Loop(NewFReader(vrt.TempFile(text)), p, m, doOut)
 }
